@@ -27,8 +27,18 @@ import (
 // from c.size is the size of an entry that is being removed, hence never more
 // than c.size (no unsigned wrap).  The fields are found by role: the map, the
 // only unsigned counter, the Config, the mutex.
-func c09Bounds(c *Ctx) {
-	c.L.Floor("C09.bounds", 4)
+func c09Bounds(c *Ctx) { c09BoundsMode(c, false) }
+
+// c09BoundsMode: with lenient set (the rule run as part of another property's
+// check) a function whose critical sections the rule cannot delimit — the lock
+// operations sit in a helper or are deferred — is left to C09's own check
+// with a note instead of being reported as undecided.
+func c09BoundsMode(c *Ctx, lenient bool) {
+	if lenient {
+		c.L.Floor("C09.bounds", 0)
+	} else {
+		c.L.Floor("C09.bounds", 4)
+	}
 	for _, name := range []string{"cache.Set", "cache.Del", "cache.Clear"} {
 		f := c.fn("cache", name)
 		if f == nil || len(f.Params) == 0 {
@@ -100,6 +110,7 @@ func c09Bounds(c *Ctx) {
 		a := lincon.New(c.P.SSA, core.InModule)
 		a.PreserveFields = func(ssa.CallInstruction) bool { return true } // see the havoc at Lock
 		nLock, nUnlock := 0, 0
+		sawDefer := false
 		a.Hook = func(h *lincon.Handle) {
 			if h.Instr.Parent() != f {
 				return
@@ -123,7 +134,10 @@ func c09Bounds(c *Ctx) {
 					h.Assert("bounds", "len(items) <= MaxCount when the lock is released", ok2 && h.ProvesLE(n.Sub(mc)))
 				}
 			case *ssa.Defer:
-				h.Assert("bounds", "lock operations are not deferred (the release points must be explicit for this rule)", false)
+				sawDefer = true
+				if !lenient {
+					h.Assert("bounds", "lock operations are not deferred (the release points must be explicit for this rule)", false)
+				}
 			case *ssa.BinOp:
 				// c.size - x: x is the size of an entry being removed (C09.accounting.*)
 				if in.Op == token.SUB {
@@ -140,6 +154,10 @@ func c09Bounds(c *Ctx) {
 			}
 		}
 		a.Entry(f, nil)
+		if lenient && (nLock == 0 || nUnlock == 0 || sawDefer) {
+			c.L.Notef("C09.bounds: the critical sections of %s are not delimited by explicit Lock/Unlock calls in the function itself; the bounds proof for it is left to the check of C09", name)
+			continue
+		}
 		recordObligations(c, a, "C09", func(o *lincon.Oblig) bool { return o.Kind == "assert:bounds" })
 		if nLock == 0 || nUnlock == 0 {
 			c.undecided("C09.bounds", f, "critical section", nil, "no Lock/Unlock of the cache mutex found in "+name)
